@@ -355,24 +355,27 @@ def pollsARF (f : Deframer) : Nat → AB × ARd × Res → List Char → List St
       | [] => pollsARF f k (pollAwait f r'.fuel b' r') [] ("pending" :: acc)
     | _ => (b', r', some res, ch, acc)
 
-/-- the abstract model's run of the harness loop with resume / cancel choices -/
-def modelARF (f : Deframer) (dataLen : Nat) : Nat → Nat → AB → ARd → List Char → List String → List String × List Nat
+/-- the abstract model's run of the harness loop with resume / cancel choices; the deframer is a per-call argument:
+    call k uses `fs[k % |fs|]` (the list is rotated after every call, cancelled calls included) -/
+def modelARF (fs : List Deframer) (dataLen : Nat) : Nat → Nat → AB → ARd → List Char → List String → List String × List Nat
   | 0, _, _, r, _, acc => (acc.reverse, r.log)
   | n + 1, term, b, r, ch, acc =>
+    let f := fs.headD (fun _ => .ok none)
+    let fs' := fs.rotateLeft 1
     let (b', r', res, ch', acc') := pollsARF f 1000 (pollLoop f r.fuel b r) ch acc
     let pos := dataLen - r'.rem.length
     match res with
-    | none => modelARF f dataLen n 0 b' r' ch' (s!"cancel@{hex b'.q}@{pos}" :: acc')
+    | none => modelARF fs' dataLen n 0 b' r' ch' (s!"cancel@{hex b'.q}@{pos}" :: acc')
     | some rr =>
       let s := showRes rr
       let entry := s!"{s}@{hex b'.q}@{pos}"
       let term' := if DrvRF.isTerminal s then term + 1 else 0
-      if term' ≥ 2 then ((entry :: acc').reverse, r'.log) else modelARF f dataLen n term' b' r' ch' (entry :: acc')
+      if term' ≥ 2 then ((entry :: acc').reverse, r'.log) else modelARF fs' dataLen n term' b' r' ch' (entry :: acc')
 
 /-- `ARF <N> <df> <pre> <ri> <asrw> <choices> <maxcalls> | <polls> ; <log>` -/
 def checkARF (pre impl : List String) : Option (List String × Bool) := do
   let (n, df, content, ri, s, choices, maxc) ← match pre with
-    | [n, df, c, ri, s, ch, m] => do pure ((← n.toNat?), (← dfId? df), (← unhex? c), (← ri.toNat?), (← asrw? s), ch, (← m.toNat?))
+    | [n, df, c, ri, s, ch, m] => do pure ((← n.toNat?), (← (df.splitOn "+").mapM dfId?), (← unhex? c), (← ri.toNat?), (← asrw? s), ch, (← m.toNat?))
     | _ => none
   let (ipolls, ilog, _) ← splitImpl impl
   let acts ← s.racts.mapM actOf
@@ -380,7 +383,7 @@ def checkARF (pre impl : List String) : Option (List String × Bool) := do
   let b0 : AB := { size := n, ri := ri, q := q0 }
   let r0 : ARd := { rem := s.data, acts := acts }
   let ch := if choices == "-" then [] else choices.toList
-  let (mpolls, mlog) := modelARF (dfOf df) s.data.length maxc 0 b0 r0 ch []
+  let (mpolls, mlog) := modelARF (df.map dfOf) s.data.length maxc 0 b0 r0 ch []
   let cancels := ch.contains 'c'
   let tag := if cancels then "C15" else "C14"
   let mut v : List String := []
@@ -401,12 +404,14 @@ def checkARF (pre impl : List String) : Option (List String × Bool) := do
   let obs ← calls.mapM DrvRF.call?
   let obs' := obs.map fun o => if o.res == "cancel" then { o with res := "err7" } else o
   let hasErr := s.racts.any fun a => match a with | .err _ => true | _ => false
-  match DrvRF.pdf? df with
-  | some g =>
+  match df.mapM DrvRF.pdf? with
+  | some gs =>
     if !hasErr || true then
-      if !DrvRF.satStream n g s.data obs' (q0 ++ s.data) then v := s!"UNSAT {tag}" :: v
+      if !DrvRF.satStreamL n s.data gs obs' (q0 ++ s.data) then v := s!"UNSAT {tag}" :: v
   | none => pure ()
-  if !DrvRF.satOwn s.data obs' (q0 ++ s.data) then v := s!"UNSAT {tag}" :: v
+  -- `satOwn` includes "a deframer rejection repeats on retry", which presupposes the same deframer on the retry
+  if df.length ≤ 1 then
+    if !DrvRF.satOwn s.data obs' (q0 ++ s.data) then v := s!"UNSAT {tag}" :: v
   let npend := (ipolls.filter fun p => p == "pending" || p.startsWith "cancel").length
   let rpend := (ilog.filter fun c => c.endsWith ":pending").length
   if npend != rpend then v := s!"UNSAT {tag}" :: v
